@@ -36,6 +36,10 @@ def cases(ctx):
         for route in ROUTES:
             yield {"kind": kind, "route": route, "computed": True, "pre_edit": False, "edit": "vertex_inplace",
                    "side": "copy", "seed": 1}
+    for kind in KINDS:
+        for seed in range(6):
+            yield {"kind": kind, "route": ROUTES[seed % 3], "computed": True, "pre_edit": True, "edit": "vertex_inplace",
+                   "side": "copy", "seed": seed}
     for kind in ("mesh", "mesh_fcol", "mesh_vcol"):
         for paint in ("vertex_after_face_read", "face_after_vertex_read", "vertex"):
             for route in ("copy", "deepcopy"):
@@ -343,7 +347,16 @@ def run_case(c):
     if c["computed"]:
         compute(a, kind)
     if c["pre_edit"]:
-        apply_edit(a, kind, "vertex_inplace", 0) or apply_edit(a, kind, "param", 0)
+        # an edit made through the API between the reads above and the copy (nothing is read in between): the copy
+        # must report the edited state, not values remembered from before the edit
+        pre = ["vertex_inplace", "param", "graph_update", "transform", "voxel_transform", "entity_inplace"]
+        r0 = c["seed"] % len(pre)
+        for e_ in pre[r0:] + pre[:r0]:
+            try:
+                if apply_edit(a, kind, e_, 0):
+                    break
+            except Exception:
+                pass
     if c.get("paint") and kind.startswith("mesh") and kind not in ("mesh_tex", "mesh_pbr"):
         # colours painted in place right before the copy, after the other colour kind was read
         if c["paint"] == "vertex_after_face_read":
